@@ -225,7 +225,15 @@ def norm_go(line):
     status = f[1]
 
     def mapv(v):
-        return MSG_HEX.get(v, v)
+        if v in MSG_HEX:
+            return MSG_HEX[v]
+        if v.startswith("s6368756e6b3a"):       # "chunk:<line>: message" — position prefix added by the runtime
+            try:
+                msg = re.sub(r"^chunk:\d+: ", "", bytes.fromhex(v[1:]).decode("utf8", "replace"))
+                return MSGS.get(msg, v)
+            except ValueError:
+                pass
+        return v
     tr = ";".join(",".join(mapv(v) for v in ev.split(",")) for ev in d.get("T", "-").split(";"))
     ret = d.get("R", "-")
     if status == "error":
@@ -234,6 +242,7 @@ def norm_go(line):
                 msg = bytes.fromhex(d.get("E", "")).decode("utf8", "replace")
             except ValueError:
                 msg = "?"
+            msg = re.sub(r"^chunk:\d+: ", "", msg)
             ret = MSGS.get(msg, "s:" + msg)
     else:
         ret = ",".join(mapv(v) for v in ret.split(","))
@@ -454,6 +463,7 @@ def instrument_thread_go(src):
         b = ins(b, r"^\s*close\(t\.resumeCh\)", 'veriftrace("s23")', "before", 1, "end")
         b = ins(b, r"^\s*t\.status = ThreadDead", 'veriftrace("s24")', "before", 1, "end")
         b = ins(b, r"^\s*err = t\.cleanupCloseStack\(", 'veriftrace("s25")', "after", 1, "end")
+        b = ins(b, r"^\s*t\.closeStack\.truncate\(0\)", 'veriftrace("s25")', "after", 1, "end")
         b = ins(b, r"^\s*t\.closeErr = err", 'veriftrace("s26")', "before", 1, "end")
         if rel is not None:
             b = ins(b, r"^\s*t\.ReleaseBytes\(", 'veriftrace("%s")' % ("s27" if rel < send else "s28"), "before", 1, "end")
@@ -526,7 +536,7 @@ def normalise_trace(tr):
             m = l[1:]
             if g in drop_f:
                 drop_f.discard(g)
-                last_lua[g] = "t" if m == "t" else "v0"
+                last_lua[g] = m      # what end() really sends (after a threadClose: Start's stale `args`; ignored by Close)
                 continue
             if g == "0":
                 continue
@@ -579,6 +589,25 @@ def hexsrc(s):
     return s.encode().hex()
 
 
+def par_resilient(binary, args, lines, workers=6, **kw):
+    """run_lines_resilient over `workers` child processes (contiguous chunks; order preserved)"""
+    import threading
+    if len(lines) < 4 * workers:
+        return vlib.run_lines_resilient(binary, args, lines, **kw)
+    sz = (len(lines) + workers - 1) // workers
+    chunks = [lines[i:i + sz] for i in range(0, len(lines), sz)]
+    res = [None] * len(chunks)
+
+    def work(j):
+        res[j] = vlib.run_lines_resilient(binary, args, chunks[j], **kw)
+    ths = [threading.Thread(target=work, args=(j,)) for j in range(len(chunks))]
+    for t in ths:
+        t.start()
+    for t in ths:
+        t.join()
+    return [l for r in res for l in r]
+
+
 def run(tier, seed):
     ck = vlib.Check("C09", tier, seed, level="proof")
     ok_obl = ck.obligations(PROP, clean=False)
@@ -618,7 +647,7 @@ def run(tier, seed):
         if len(sc) == depth_full + 1 and i % stride == 0:
             scripts.append((sc, i % 2 == 1))
             nslice += 1
-    nrand = 3000 if tier == "quick" else 60000
+    nrand = 2000 if tier == "quick" else 60000
     for i in range(nrand):
         scripts.append((rand_script(ck.rng), i % 3 != 0))
     ck.log("scripts: corpus %d, all of depth<=%d: %d, slice of depth %d: %d (of %d), random %d" % (
@@ -633,7 +662,7 @@ def run(tier, seed):
     for i, src in enumerate(sources):
         exp = norm_model(model[i])[3]
         glines.append("s%d %s exp=%s" % (i, hexsrc(src), exp))
-    impl = vlib.run_lines_resilient(gvt, ["script"], glines, per_case_timeout=20)
+    impl = par_resilient(gvt, ["script"], glines, per_case_timeout=20)
     ndiff = 0
     gleft = 0
     for i, (sc, tbc) in enumerate(scripts):
@@ -757,11 +786,11 @@ def run(tier, seed):
                       "theorems_no_longer_about_this_code": ["C09_baton_unique", "C09_no_deadlock_partial", "C09_status_table",
                                                               "C09_no_goroutine_left", "C09_values_transferred_exactly"]}, no_input=True)
     else:
-        ntr = 1500 if tier == "quick" else 40000
+        ntr = 1200 if tier == "quick" else 40000
         step = max(1, len(scripts) // ntr)
         sel = list(range(0, len(scripts), step))[:ntr]
         tl = ["s%d %s exp=%s" % (i, hexsrc(sources[i]), norm_model(model[i])[3]) for i in sel]
-        to = vlib.run_lines_resilient(gtr, ["script"], tl, per_case_timeout=20)
+        to = par_resilient(gtr, ["script"], tl, per_case_timeout=20)
         plines, meta = [], []
         for j, o in enumerate(to):
             g = norm_go(o)
